@@ -77,6 +77,7 @@ def run(tier, work):
     if tier == "quick" and len(hists) > 4000:
         rnd.shuffle(hists)
         hists = hists[:4000]
+    hists, nexh = vlib.cap_histories(hists, 150000)
     nsim = 800 if tier == "quick" else 20000
     sims, _ = vlib.generate(SPEC, "UidsGen", "GenSim.cfg", work, "p2b", workers=4, simulate="num=%d" % nsim,
                             extra=["-depth", "12", "-seed", str(vlib.SEED)], timeout=900)
